@@ -3,6 +3,7 @@
 Monitors: icontract post-conditions on the real parseLengthWithUnits, unitsToUserUnits,
 userUnitToUnits, getLength and getLengthInches; the oracle is an independent unit table
 in exact rationals; the driver adds the cross-function (round-trip / agreement) checks."""
+import re
 from fractions import Fraction
 
 from .. import contracts
@@ -51,6 +52,16 @@ class Stub:
         return self.attrs.get(name, default)
 
 
+def exact_value(num):
+    """The numeral as an exact rational - except that an exponent of more than a few thousand digits' worth
+    is not expanded (10**(10**19) does not fit anywhere): such numerals are generated only with a value that
+    is zero or underflows to zero, which is what is returned for them."""
+    m = re.search(r"[eE]([+-]?\d+)$", num)
+    if m and len(m.group(1).lstrip("+-")) > 5:
+        return Fraction(0)
+    return Fraction(num)
+
+
 def gen_numeral(rng):
     c = rng.randrange(12)
     if c == 0:
@@ -77,6 +88,13 @@ def gen_numeral(rng):
         s = "%.3f" % rng.uniform(0, 5000)
     else:
         s = str(rng.randint(0, 20))
+    if rng.random() < 0.03:
+        # finite numerals with absurdly long exponents: a zero mantissa with any exponent is 0, a tiny
+        # mantissa with an exponent of -10^19 underflows to 0.0 - float() reads both; number parsers of
+        # other libraries (decimal: exponent limit ~9.2e18) refuse them
+        big = rng.choice(("9999999999999999999", "12345678901234567890", "100000000000000000000000",
+                          "999999999999999999", "9223372036854775808"))
+        s = rng.choice(("0e" + big, "0.0E+" + big, "0e-" + big, "1e-" + big, "7.25E-" + big, "00e" + big))
     sign = rng.random()
     if sign < 0.15:
         s = "-" + s
@@ -170,9 +188,9 @@ class Monitor:
             return True
         if unit == "%":
             ref = percent_ref if percent_ref else 1.0
-            want = float(Fraction(num) * Fraction(ref) / 100)
+            want = float(exact_value(num) * Fraction(ref) / 100)
         else:
-            want = float(Fraction(num) * FACTOR[unit])
+            want = float(exact_value(num) * FACTOR[unit])
         if not isinstance(result, float) or not close(result, want):
             self._fail("unitsToUserUnits", result, want, percent_ref=percent_ref)
         return True
@@ -260,14 +278,14 @@ def one_case(ctx, mon, cls, text, num, unit, ref, default, attr="width", sibling
             ctx.count("accepted: numeral and unit separated by white space rejected as a spelling")
             return
     if unit == "%":
-        want_len = float(Fraction(default) * Fraction(num) / 100)
+        want_len = float(Fraction(default) * exact_value(num) / 100)
         if not close(g_len, want_len):
             fail("getLength percent of reference", got=g_len, expected=want_len)
         back = plot_utils.userUnitToUnits(uu_noref, "%")
         if not close(back, value, 1e-9):
             fail("round trip", got=back, expected=value)
         return
-    want = float(Fraction(num) * FACTOR[unit])
+    want = float(exact_value(num) * FACTOR[unit])
     if not close(g_len, want):
         fail("getLength != unitsToUserUnits", got=g_len, expected=want)
     if g_in is None or not close(g_in * 96.0, want, 1e-9):
